@@ -110,6 +110,64 @@ def diffTrees (st : St) (a b : Nat) : String :=
 def parseMerge (s : String) : Option Merge :=
   if s = "join" then some .joinMax else if s = "peer" then some .peerWins else none
 
+def storesOf (st : St) (ids : List Nat) : List (List (Bytes × Bytes)) :=
+  ids.map fun i => match st.reps[i]? with | some (r, _) => r.store | none => []
+
+def pullIn (st : St) (m : Merge) (i j : Nat) : Option St :=
+  match st.reps[i]?, st.reps[j]? with
+  | some (ri, base), some (rj, bj) =>
+    let lvl := fun (key : Bytes) => level (st.kds.getD key []) base
+    match pull lvl hc m ri rj with
+    | .error _ => none
+    | .ok (ri', rj') => some { st with reps := (st.reps.insert i (ri', base)).insert j (rj', bj) }
+  | _, _ => none
+
+def sweepOnce (m : Merge) (ids : List Nat) (st : St) : Option St :=
+  ids.foldl (fun acc i =>
+    ids.foldl (fun acc j =>
+      match acc with
+      | none => none
+      | some s => if i = j then some s else pullIn s m i j) acc) (some st)
+
+def settleLoop (m : Merge) (ids : List Nat) : Nat → St → Option St
+  | 0, st => some st
+  | fuel + 1, st =>
+    match sweepOnce m ids st with
+    | none => none
+    | some st' => if storesOf st' ids = storesOf st ids then some st' else settleLoop m ids fuel st'
+
+def disagreeCount (a b : List (Bytes × Bytes)) : Nat :=
+  let keys := ((a.map Prod.fst) ++ (b.map Prod.fst)).eraseDups
+  (keys.filter fun k => lookupKV k a != lookupKV k b).length
+
+def settle (st : St) (m : Merge) : St × String :=
+  let ids := (st.reps.toList.map Prod.fst).mergeSort (fun a b => decide (a ≤ b))
+  let res : Option St :=
+    match ids with
+    | [a, b] =>
+      let d := disagreeCount ((storesOf st [a]).headD []) ((storesOf st [b]).headD [])
+      (List.range d).foldl (fun acc _ =>
+        match acc with
+        | none => none
+        | some s =>
+          if storesOf s [a] = storesOf s [b] then some s else
+          match pullIn s m b a with
+          | none => none
+          | some s1 => pullIn s1 m a b) (some st)
+    | _ => settleLoop m ids 200 st
+  match res with
+  | none => (st, "panic")
+  | some st' =>
+    -- report every replica's root hash (hashing is part of the phase)
+    let (st'', outs) := ids.foldl (fun (acc : St × List String) i =>
+      match acc.1.reps[i]? with
+      | some (rep, base) =>
+        let t := rep.tree.genRootHash hc
+        ({ acc.1 with reps := acc.1.reps.insert i ({ rep with tree := t }, base) },
+          acc.2 ++ [match t.rootHash with | some d => hexOf d | none => "panic"])
+      | none => acc) (st', [])
+    (st'', " ".intercalate outs)
+
 def step (st : St) (line : String) : St × String :=
   match line.trimAscii.toString.splitOn " " with
   | "new" :: t :: base :: _ =>
@@ -250,7 +308,24 @@ def step (st : St) (line : String) : St × String :=
     | _, _ => (st, "bad-op")
   | "rnew" :: r :: base :: _ =>
     match r.toNat?, base.toNat? with
-    | some r, some base => ({ st with reps := st.reps.insert r (Replica.empty, base) }, "ok")
+    | some r, some base =>
+      -- `rnew 0` starts a new self-contained replica case
+      let reps := if r = 0 then {} else st.reps
+      ({ st with reps := reps.insert r (Replica.empty, base) }, "ok")
+    | _, _ => (st, "bad-op")
+  | ["rsettle", m] =>
+    -- the fair quiescent phase itself: two replicas → as many two-way rounds as there are
+    -- disagreeing keys; more → sweeps over all ordered pairs (ascending) until nothing changes
+    match parseMerge m with
+    | some m => settle st m
+    | none => (st, "bad-op")
+  | ["same", _, _] => (st, "ok")  -- implementation-side oracle marker (two trees must be interchangeable)
+  | ["rclone", dst, src] =>
+    match dst.toNat?, src.toNat? with
+    | some dst, some src =>
+      match st.reps[src]? with
+      | some x => ({ st with reps := st.reps.insert dst x }, "ok")
+      | none => (st, "bad-op")
     | _, _ => (st, "bad-op")
   | ["rwrite", r, k, kd, v, m] =>
     match r.toNat?, parseBytes k, parseBytes kd, parseBytes v, parseMerge m with
